@@ -354,6 +354,161 @@ Proof.
   destruct (inv_named H s I) as (l1 & Hl1 & Hn). exists l1. split; [exact Hl1|]. unfold tag_of. now apply Hn.
 Qed.
 
+(* ---------- a call that runs alone = the sequential operation ---------- *)
+(* the concurrent model scheduled with one thread to completion leaves the same shared
+   directory (all non-temporary paths) and the same resolver as Model/OciCrash.v's run_op *)
+Definition nt_same (fs fs' : FS) : Prop := forall p, is_temp p = false -> files fs p = files fs' p.
+
+Definition alone (s : st) (x : ccall) (n : nat) : conf := sched shuffle (start H s [x]) (repeat 0%nat n).
+
+Definition refines (s : st) (x : ccall) (n : nat) : Prop :=
+  let c := alone s x n in
+  let s1 := run_op H shuffle false false true s (op_of_call x) in
+  ctags c = stags s1 /\ cdigs c = sdigs s1 /\ nt_same (cfs c) (sfs s1) /\ clock c = false.
+
+(* the index write of the sequential model, seen on non-temporary paths *)
+Lemma idx_view s tags digs :
+  Inv H s ->
+  nt_same (set_file (sfs s) FIndex (mkFile [AIndex (shuffle (sctr s) (save tags digs))] false))
+          (apply (index_steps shuffle false (sctr s) tags digs) (sfs s)).
+Proof.
+  intros I p Hp.
+  destruct (idx_final shuffle (sctr s) tags digs (sfs s) (inv_temp H s I (FIndexTmp (sctr s)) eq_refl (le_n _)))
+    as (F1 & _ & F3).
+  unfold set_file. cbn [files]. destruct (fpath_eqb p FIndex) eqn:E.
+  - apply fpath_eqb_spec in E. subst p. rewrite upd_same. now rewrite F1.
+  - assert (p <> FIndex) by (intros ->; rewrite fpath_eqb_refl in E; discriminate).
+    rewrite upd_other by assumption. symmetry. apply F3; [assumption|]. intros ->. discriminate.
+Qed.
+
+Lemma refines_saveindex s : Inv H s -> refines s CSaveIndex 3.
+Proof.
+  intro I. unfold refines, alone. cbn zeta. cbn [op_of_call].
+  unfold run_op. cbn [op_mem]. repeat split; try reflexivity.
+  cbn [sfs]. intros p Hp.
+  change (files (set_file (sfs s) FIndex (mkFile [AIndex (shuffle (sctr s) (save (stags s) (sdigs s)))] false)) p =
+          files (apply (op_steps H shuffle false false true s SaveIndex) (sfs s)) p).
+  unfold op_steps. cbn [op_mem]. now apply idx_view.
+Qed.
+
+Lemma refines_tag s d r : Inv H s -> refines s (CTag d r) 4.
+Proof.
+  intro I. unfold refines, alone. cbn zeta. cbn [op_of_call].
+  unfold run_op, start. cbn [map call_prog op_mem].
+  destruct (exists_file (sfs s) (FBlob d)) eqn:Ex.
+  - repeat split; try reflexivity. cbn [sfs]. intros p Hp.
+    change (files (set_file (sfs s) FIndex
+                     (mkFile [AIndex (shuffle (sctr s) (save (tag_set r d (stags s)) (dig_add d (sdigs s))))] false)) p =
+            files (apply (op_steps H shuffle false false true s (Tag d r)) (sfs s)) p).
+    unfold op_steps. cbn [op_mem]. rewrite Ex. cbv beta iota delta [auto_idx]. now apply idx_view.
+  - repeat split; try reflexivity. cbn [sfs]. intros p Hp. unfold op_steps. cbn [op_mem]. rewrite Ex. reflexivity.
+Qed.
+
+Lemma refines_untag s r : Inv H s -> refines s (CUntag r) 4.
+Proof.
+  intro I. unfold refines, alone. cbn zeta. cbn [op_of_call].
+  unfold run_op, start. cbn [map call_prog op_mem].
+  destruct (tag_get r (stags s)) as [x|] eqn:Eg.
+  - repeat split; try reflexivity. cbn [sfs]. intros p Hp.
+    change (files (set_file (sfs s) FIndex
+                     (mkFile [AIndex (shuffle (sctr s) (save (tag_del r (stags s)) (sdigs s)))] false)) p =
+            files (apply (op_steps H shuffle false false true s (Untag r)) (sfs s)) p).
+    unfold op_steps. cbn [op_mem]. rewrite Eg. cbv beta iota delta [auto_idx]. now apply idx_view.
+  - repeat split; try reflexivity. cbn [sfs]. intros p Hp. unfold op_steps. cbn [op_mem]. rewrite Eg. reflexivity.
+Qed.
+
+Lemma alone_writes cont : forall fs tags digs lk cnt tmp rest sn hd,
+  sched shuffle (mkConf fs tags digs lk cnt [mkThread (map (fun x => TWrite (AChunk x)) cont ++ rest) tmp sn hd])
+        (repeat 0%nat (length cont))
+  = mkConf fs tags digs lk cnt [mkThread rest (tmp ++ map AChunk cont) sn hd].
+Proof.
+  induction cont as [|x cont IH]; intros fs tags digs lk cnt tmp rest sn hd.
+  - cbn. now rewrite app_nil_r.
+  - cbn [length repeat sched fold_left map app]. unfold sched_step at 2. cbn [cthreads nth_error fire tprog ttmp tsnap tholds].
+    cbn [cfs ctags cdigs clock ccnt set_nth].
+    change (fold_left (sched_step shuffle) (repeat 0%nat (length cont)) ?c) with (sched shuffle c (repeat 0%nat (length cont))).
+    rewrite IH. now rewrite <- app_assoc.
+Qed.
+
+Lemma sched_app c is1 is2 : sched shuffle c (is1 ++ is2) = sched shuffle (sched shuffle c is1) is2.
+Proof. unfold sched. apply fold_left_app. Qed.
+
+Lemma repeat_plus (n m : nat) : repeat 0%nat (n + m) = repeat 0%nat n ++ repeat 0%nat m.
+Proof. induction n; cbn; congruence. Qed.
+
+Lemma refines_push s d cont man : Inv H s -> refines s (CPush d cont man) (length cont + 5).
+Proof.
+  intro I. unfold refines, alone. cbn zeta. cbn [op_of_call].
+  unfold start. cbn [map call_prog].
+  destruct (exists_file (sfs s) (FBlob d)) eqn:Ex.
+  - (* AlreadyExists: nothing happens in either model *)
+    assert (E : forall n, sched shuffle (mkConf (sfs s) (stags s) (sdigs s) false (sctr s) [mkThread [] [] None false]) (repeat 0%nat n)
+                = mkConf (sfs s) (stags s) (sdigs s) false (sctr s) [mkThread [] [] None false]).
+    { induction n as [|n IHn]; [reflexivity|]. cbn [repeat sched fold_left]. unfold sched_step at 2. cbn. exact IHn. }
+    rewrite E. unfold run_op. cbn [op_mem]. rewrite Ex. cbn [cfs ctags cdigs clock stags sdigs sfs].
+    repeat split; try reflexivity. intros p Hp. unfold op_steps. cbn [op_mem]. rewrite Ex. reflexivity.
+  - rewrite repeat_plus, sched_app. unfold push_prog. rewrite alone_writes. cbn [app].
+    pose proof Ex as Exb. apply exists_file_false in Ex.
+    set (t := FIngest d (sctr s)).
+    assert (Htmp : files (sfs s) t = None) by (exact (inv_temp H s I t eq_refl (le_n _))).
+    destruct (H cont =? d) eqn:EH.
+    + (* verified: published, and for a manifest tagged by digest and saved *)
+      set (X := mkFile (map AChunk cont) true).
+      (* the sequential model up to the rename *)
+      set (A := ingest_pre (sfs s) d t cont ++ [Chmod t; Close t]).
+      assert (HT : only_touch A t).
+      { apply only_touch_app; [intros m Hin p; now apply (ingest_pre_touch (sfs s) d t cont)|].
+        intros m [<-|[<-|[]]] p Hp; cbn in Hp; [exact Hp|contradiction]. }
+      assert (FAt : files (apply A (sfs s)) t = Some X).
+      { unfold A. rewrite apply_app. unfold apply at 1. cbn [fold_left apply1].
+        rewrite (ingest_pre_content (sfs s) d t cont Htmp). cbn [files fcontent fro]. apply upd_same. }
+      set (fsB := apply1 (apply A (sfs s)) (Rename t (FBlob d))).
+      assert (FB : nt_same (set_file (sfs s) (FBlob d) X) fsB).
+      { intros p Hp. unfold fsB. cbn [apply1]. rewrite FAt. unfold set_file. cbn [files].
+        assert (p <> t) by (intros ->; discriminate).
+        rewrite (upd_other _ t None p) by assumption. unfold upd at 1 2.
+        destruct (fpath_eqb p (FBlob d)); [reflexivity|]. symmetry. now apply (only_touch_frame A t). }
+      assert (Steps : op_steps H shuffle false false true s (Push d cont man)
+                      = A ++ Rename t (FBlob d) ::
+                        (if man then index_steps shuffle false (sctr s) (stags s) (dig_add d (sdigs s)) else [])).
+      { unfold op_steps. cbn [op_mem]. unfold exists_file. rewrite Ex, EH. cbn [negb].
+        unfold A, ingest_pre, t. rewrite <- !app_assoc. cbn [app]. destruct man; reflexivity. }
+      unfold run_op. cbn [op_mem]. rewrite !Exb, ?EH. cbn [negb].
+      destruct man.
+      * cbn [repeat sched fold_left]. unfold sched_step. cbn.
+        repeat split; try reflexivity. cbn [sfs]. intros p Hp. rewrite Steps. cbv beta iota. rewrite apply_app, apply_cons. fold fsB.
+        (* the index write on top of the published blob *)
+        assert (HnB : files fsB (FIndexTmp (sctr s)) = None).
+        { unfold fsB. cbn [apply1]. rewrite FAt. cbn [files]. rewrite !upd_other by (unfold t; discriminate).
+          rewrite (only_touch_frame A t _ _ HT) by (unfold t; discriminate). exact (inv_temp H s I (FIndexTmp (sctr s)) eq_refl (le_n _)). }
+        destruct (idx_final shuffle (sctr s) (stags s) (dig_add d (sdigs s)) fsB HnB) as (F1 & _ & F3).
+        unfold set_file. cbn [files]. destruct (fpath_eqb p FIndex) eqn:E.
+        -- apply fpath_eqb_spec in E. subst p. rewrite upd_same. now rewrite F1.
+        -- assert (p <> FIndex) by (intros ->; rewrite fpath_eqb_refl in E; discriminate).
+           rewrite upd_other by assumption. rewrite F3; [|assumption|intros ->; discriminate].
+           rewrite <- (FB p Hp). reflexivity.
+      * cbn [repeat sched fold_left]. unfold sched_step. cbn.
+        repeat split; try reflexivity. cbn [sfs]. intros p Hp. rewrite Steps. cbv beta iota. rewrite apply_app. cbn [apply fold_left].
+        fold fsB. exact (FB p Hp).
+    + (* verification fails: the temporary goes, nothing else changes *)
+      cbn [repeat sched fold_left]. unfold sched_step. cbn.
+      unfold run_op. cbn [op_mem]. rewrite !Exb, ?EH. cbn [negb].
+      repeat split; try reflexivity. cbn [sfs]. intros p Hp.
+      destruct (push_bad_safe H s d cont I) as (_ & _ & P2 & _).
+      rewrite <- P2. f_equal. f_equal. unfold op_steps. cbn [op_mem]. unfold exists_file. rewrite Ex, EH. cbn [negb].
+      unfold ingest_pre. rewrite <- !app_assoc. cbn [app]. destruct man; reflexivity.
+Qed.
+
+(* every call that runs alone in the concurrent model is the sequential model's operation *)
+Theorem conc_alone_refines s x : Inv H s -> exists n, refines s x n.
+Proof.
+  intro I. destruct x as [d c man|d r|r|].
+  - exists (length c + 5)%nat. now apply refines_push.
+  - exists 4%nat. now apply refines_tag.
+  - exists 4%nat. now apply refines_untag.
+  - exists 3%nat. now apply refines_saveindex.
+Qed.
+
 End ConcProofs.
 
 Theorem conc_crash_safe_src :
@@ -402,3 +557,20 @@ Theorem conc_tags_origin_src :
       forall l r n, read_index (cfs c) = Some l -> tag_of l r n ->
         (exists l0, read_index (sfs s) = Some l0 /\ tag_of l0 r n) \/ In (CTag n r) calls.
 Proof. rewrite src_inplace_false, src_unlink_first_false. exact conc_tags_origin. Qed.
+
+Theorem conc_alone_refines_src :
+  forall (H : list N -> N) (shuffle : nat -> list entry -> list entry),
+    (forall c l e, In e (shuffle c l) <-> In e l) ->
+    forall (h : list hop) (x : ccall),
+      let s := runc H shuffle src_inplace src_unlink_first true h init in
+      exists n,
+        let c := sched shuffle (start H s [x]) (repeat 0%nat n) in
+        let s1 := run_op H shuffle src_inplace src_unlink_first true s (op_of_call x) in
+        ctags c = stags s1 /\ cdigs c = sdigs s1 /\
+        (forall p, is_temp p = false -> files (cfs c) p = files (sfs s1) p) /\ clock c = false.
+Proof.
+  rewrite src_inplace_false, src_unlink_first_false. intros H shuffle Hs h x s.
+  assert (I : Inv H s) by (apply inv_runc; [exact Hs|apply inv_init]).
+  destruct (conc_alone_refines H shuffle s x I) as (n & R). exists n. exact R.
+Qed.
+
